@@ -358,7 +358,7 @@ impl BootSector {
             ans = false;
         }
         let bpb = BPBFoundation::from_bytes(&sec_data[11..36].to_vec()).expect(RCH);
-        ans |= bpb.verify();
+        ans &= bpb.verify();
         let ext32 = BPBExtension32::from_bytes(&sec_data[36..64].to_vec()).expect(RCH);
         let fat_secs = match bpb.fat_size_16 {
             [0,0] => u32::from_le_bytes(ext32.fat_size_32) as u64,
@@ -488,7 +488,7 @@ impl BootSector {
         self.res_secs() as u64 + self.foundation.num_fats as u64 * self.fat_secs() + self.root_dir_secs()
     }
     pub fn first_cluster_sec(&self,n: u64) -> u64 {
-        (n-2)*self.foundation.sec_per_clus() as u64 + self.first_data_sec()
+        n.saturating_sub(2)*self.foundation.sec_per_clus() as u64 + self.first_data_sec()
     }
     pub fn create_tail(&mut self,drv_num: u8,id: [u8;4],label: [u8;11]) {
         self.tail.boot_sig = 0x29;
